@@ -37,7 +37,8 @@ def generate(rng, tier, seed):
         for p in src_variants(rng, items, en):
             base = seed * 1000 + rng.randrange(1000)
             for sched in (["random", base, 60 if thorough else 25], ["pct", 3, base, 30 if thorough else 10]):
-                scn = ["conc", ["objects", ["tovec", p]], ["init", ["block_on", 0]], ["threads"], ["fini"], ["sched"] + sched]
+                # a quarter of the awaiters go on with a CLONE of the future after the first pending poll and drop the handle polled first
+                scn = ["conc", ["objects", ["tovec", p]], ["init", [rng.choice(["block_on"] * 3 + ["block_on_handover"]), 0]], ["threads"], ["fini"], ["sched"] + sched]
                 if rng.random() < 0.3:
                     scn.append(["spurious"])
                 cases.append({"scn": scn, "sched": sched, "items": items, "en": list(en) if en != "c" else "c", "pipe": sx.dumps(p)})
